@@ -45,7 +45,7 @@ def run(chk):
     thorough = chk.tier == "thorough"
     rnd = random.Random(chk.seed)
     for cfgname, stride in CONFIGS:
-        plans = cerlib.model_check(chk, cfgname)
+        plans = cerlib.model_check(chk, cfgname, prefixes=PREFIXES)
         if plans is None:
             continue
         beh = cerlib.expand(plans)
